@@ -56,7 +56,9 @@ class A(Adapter):
         base = [cfg("default", True, sr=2, sc=3, h=8, a=4, rng=1, q=8, tl=None), cfg("s1c3h1a2r2q2", True, sr=1, sc=3, h=1, a=2, rng=2, q=2, tl=None),
                 cfg("s1c3h3a3r1q4", sr=1, sc=3, h=3, a=3, rng=1, q=4, tl=None), cfg("s2c1h2a1r2q3", sr=2, sc=1, h=2, a=1, rng=2, q=3, tl=None),
                 # same grid size as the default (20x10) but another floor plan: same-shape, different-parameter variant
-                cfg("s3c3h5a4r1q8", sr=3, sc=3, h=5, a=4, rng=1, q=8, tl=None)]
+                cfg("s3c3h5a4r1q8", sr=3, sc=3, h=5, a=4, rng=1, q=8, tl=None),
+                # the default floor plan with another request-queue size (everything but the queue is shared with the default)
+                cfg("defaultq4", sr=2, sc=3, h=8, a=4, rng=1, q=4, tl=None)]
         return cross_tl(base, [1, 2, 3, 7])
 
     def build(self, c):
